@@ -45,7 +45,7 @@ def run_concurrent(cfg, preset, programs, schedule, shared=False, retry=True):
                 r.retry = retry
                 r.rec.file_ids = base.rec.file_ids
                 runners[cid] = r
-        sch = Scheduler(env.rec)
+        sch = Scheduler(env.rec, post_yield=True)
         lines = {cid: [] for cid in cids}
 
         def mk(cid):
@@ -95,7 +95,7 @@ def run_concurrent_layer(cls, cfg, preset, programs, schedule):
         cids = sorted(programs)
         for cid in cids:
             runners[cid] = layers.RUNNERS[cls](dict(cfg), directory=base.dir)
-        sch = Scheduler(env.rec)
+        sch = Scheduler(env.rec, post_yield=True)
         lines = {cid: [] for cid in cids}
 
         def mk(cid):
